@@ -1,8 +1,144 @@
 package main
 
-// Lemma harnesses: straight-line sequences of calls to real functions with a
-// postcondition relating them.
+// Lemma harnesses: straight-line sequences of calls to real functions (through
+// their contracts when they have one, through their bodies otherwise) followed
+// by a postcondition relating the states.
 
-func (ex *Exec) verifyHarness(h *Harness) *FuncResult {
-	return &FuncResult{Key: h.Name, Undecided: "harnesses not implemented yet"}
+import (
+	"fmt"
+	"go/types"
+	"strings"
+)
+
+func (ex *Exec) verifyHarness(h *Harness) (res *FuncResult) {
+	res = &FuncResult{Key: "harness:" + h.Name}
+	defer func() {
+		if r := recover(); r != nil {
+			switch u := r.(type) {
+			case undecided:
+				res.Undecided = u.reason
+				res.Obls = nil
+				return
+			case specFail:
+				res.Undecided = "contract error in harness " + h.Name + ": " + string(u)
+				res.Obls = nil
+				return
+			}
+			panic(r)
+		}
+	}()
+	pseudo := &FuncInfo{Key: "harness:" + h.Name, Sig: types.NewSignatureType(nil, nil, nil, nil, nil, false)}
+	ex.Fn = pseudo
+	ex.curFn = pseudo
+	ex.curProps = h.Props
+	ex.paramEnv = map[string]Val{}
+	if m, ok := h.Opts["float-model"]; ok {
+		ex.floatModel = m
+	}
+	st := newState()
+	st.ctr = Sym("ctr$0", SInt)
+	st.assume(Ge(st.ctr, IntLit(1)))
+	env := map[string]Val{}
+	c0 := &SpecCtx{ex: ex, st: st, old: st, env: env, ghosts: ex.ghosts}
+	for _, p := range h.Params {
+		t := c0.resolveType(p.Type)
+		v := freshVal("h."+p.Name, t)
+		st.assumeAll(typeFacts(v))
+		st.assumeAll(ex.allocFacts(st, v))
+		env[p.Name] = v
+	}
+	ex.pre = st.clone()
+	marks := map[string]*State{}
+	ex.marks = marks
+	mk := func() *SpecCtx { return &SpecCtx{ex: ex, st: st, old: ex.pre, env: env, ghosts: ex.ghosts} }
+	for _, r := range h.Requires {
+		st.assume(mk().evalBool(r.E))
+	}
+	ex.pre.facts = append([]*Term(nil), st.facts...)
+	ex.canary(st, "entry")
+	for i, s := range h.Steps {
+		switch s.Kind {
+		case "assume":
+			st.assume(mk().evalBool(s.E))
+		case "let":
+			if s.E.Op == "call" && s.E.Args[0].Op != "id" || (s.E.Op == "call" && ex.P.Funcs[s.E.Args[0].Tok] != nil) {
+				vals := ex.harnessCall(st, mk(), s.E, fmt.Sprintf("step%d", i+1))
+				names := strings.Split(s.Name, ",")
+				for k, n := range names {
+					n = strings.TrimSpace(n)
+					if n != "_" && k < len(vals) {
+						env[n] = vals[k]
+					}
+				}
+			} else {
+				env[s.Name] = mk().eval(s.E)
+			}
+		case "call":
+			if s.E.Op == "id" && strings.HasPrefix(s.E.Tok, "mark_") {
+				marks[strings.TrimPrefix(s.E.Tok, "mark_")] = st.clone()
+				continue
+			}
+			ex.harnessCall(st, mk(), s.E, fmt.Sprintf("step%d", i+1))
+		}
+	}
+	for i, e := range h.Ensures {
+		t := mk().evalBool(e.E)
+		ex.obligNoAssume(st, "lemma", nil, clauseLabel(e, i, "ens"), t)
+	}
+	ex.canary(st, "ret1")
+	res.Obls = ex.Obls
+	for n := range ex.notes {
+		res.Notes = append(res.Notes, n)
+	}
+	for e := range ex.assumedExt {
+		res.Externs = append(res.Externs, e)
+	}
+	return res
+}
+
+// harnessCall evaluates f(args) or recv.m(args) on real functions.
+func (ex *Exec) harnessCall(st *State, c *SpecCtx, e *SExpr, tag string) []Val {
+	if e.Op != "call" {
+		c.fail("harness step is not a call: %s", e)
+	}
+	fn := e.Args[0]
+	var fi *FuncInfo
+	var recv *Val
+	switch fn.Op {
+	case "id":
+		fi = ex.P.Funcs[fn.Tok]
+	case "sel":
+		r := c.eval(fn.Args[0])
+		t := r.T
+		if p, ok := t.Underlying().(*types.Pointer); ok {
+			t = p.Elem()
+		}
+		if n, ok := t.(*types.Named); ok {
+			fi = ex.P.Funcs[n.Obj().Name()+"."+fn.Tok]
+		}
+		if fi != nil {
+			rt := fi.Sig.Recv().Type()
+			_, wantPtr := rt.Underlying().(*types.Pointer)
+			_, havePtr := r.T.Underlying().(*types.Pointer)
+			if !wantPtr && havePtr {
+				r = st.loadStruct(r.C[0], rt)
+			}
+		}
+		recv = &r
+	}
+	if fi == nil {
+		c.fail("harness: unknown function in %s", e)
+	}
+	var args []Val
+	for i, a := range e.Args[1:] {
+		v := c.eval(a)
+		if i < fi.Sig.Params().Len() {
+			v = ex.coerce(st, nil, v, fi.Sig.Params().At(i).Type())
+		}
+		args = append(args, v)
+	}
+	if fi.Contract != nil && fi.Contract.Opts["inline-in-harness"] == "" {
+		return ex.applyContract(st, nil, fi.Contract, fi.Sig, fi.Key, recv, args, fi)
+	}
+	return ex.inline(st, nil, fi, recv, args)
 }
